@@ -14,6 +14,7 @@ import (
 	"sync"
 	"unicode/utf8"
 
+	"github.com/zmap/zcrypto/x509"
 	zlint "github.com/zmap/zlint/v3"
 	"github.com/zmap/zlint/v3/formattedoutput"
 	"github.com/zmap/zlint/v3/lint"
@@ -198,6 +199,16 @@ func subCodec(out string, seed uint64, tier string, arg string) {
 				rs.Results[n].Details = hostile[(k+i)%len(hostile)]
 				k++
 			}
+		}
+		// every fifth result set carries each of the eight statuses, `reserved` (the zero value of an unset result) included
+		if i%5 == 0 {
+			for j, n := range names {
+				if j >= 8 {
+					break
+				}
+				rs.Results[n].Status = lint.LintStatus(j)
+			}
+			rep.count("all-eight-statuses-set")
 		}
 		rep.Evaluations++
 		rep.distinctKey("rs:" + o.Name)
@@ -538,8 +549,55 @@ func subMeta(out string, seed uint64, tier string, arg string) {
 			rep.violate(Violation{"C13", "unknown source " + s + " accepted by the JSON decoder", "unknown-source-json", map[string]interface{}{"source": s}})
 		}
 	}
+	// "registered once": a second registration under a taken name — the same metadata, another implementation (a lint file copied
+	// and re-implemented without renaming) — must be refused loudly by the public API (it panics at init time), for each kind; it
+	// must never be accepted *silently*, which would leave a lint in the tree that is in no registry
+	dupProbe := func(kind string, try func()) {
+		rep.Evaluations++
+		rep.distinctKey("duplicate-registration:" + kind)
+		before := len(g.Names())
+		panicked := func() (p bool) {
+			defer func() {
+				if recover() != nil {
+					p = true
+				}
+			}()
+			try()
+			return false
+		}()
+		if !panicked && len(g.Names()) == before {
+			rep.violate(Violation{"C12", "registering a second " + kind + " lint under a taken name (same metadata, another implementation) is silently ignored: the new implementation is in no registry and nothing reports it",
+				"duplicate-registration-silent:" + kind, map[string]interface{}{"kind": kind}})
+		}
+	}
+	if cl := g.CertificateLints().Lints(); len(cl) > 0 {
+		md := cl[0].LintMetadata
+		dupProbe("certificate", func() {
+			lint.RegisterCertificateLint(&lint.CertificateLint{LintMetadata: md, Lint: func() lint.CertificateLintInterface { return &dupCertLint{} }})
+		})
+	}
+	if cl := g.RevocationListLints().Lints(); len(cl) > 0 {
+		md := cl[0].LintMetadata
+		dupProbe("CRL", func() {
+			lint.RegisterRevocationListLint(&lint.RevocationListLint{LintMetadata: md, Lint: func() lint.RevocationListLintInterface { return &dupCrlLint{} }})
+		})
+	}
 	rep.sample(map[string]interface{}{"names": len(g.Names()), "sources": len(g.Sources()), "profiles": len(lint.AllProfiles())})
 	rep.write(filepath.Join(out, "report.json"))
+}
+
+type dupCertLint struct{}
+
+func (*dupCertLint) CheckApplies(*x509.Certificate) bool { return false }
+func (*dupCertLint) Execute(*x509.Certificate) *lint.LintResult {
+	return &lint.LintResult{Status: lint.Pass}
+}
+
+type dupCrlLint struct{}
+
+func (*dupCrlLint) CheckApplies(*x509.RevocationList) bool { return false }
+func (*dupCrlLint) Execute(*x509.RevocationList) *lint.LintResult {
+	return &lint.LintResult{Status: lint.Pass}
 }
 
 type keptEnc struct {
